@@ -288,6 +288,40 @@ End Store.
 (* ================= the whole writer run ================= *)
 Definition mem_ok (lg : list emitted) : Prop := forall e, In e lg -> len (em_bytes e) < 2^64.
 
+(* the body of the file (everything before the trailer) is a well-formed store whatever follows it *)
+Theorem written_body_wf compress decompress c :
+  (forall b z, compress (wc_codec c) (wc_level c) b = Done z -> decompress (wc_codec c) z = Done b) ->
+  forall es i s lg m, wc_levels c < 256 -> 1 <= wc_interval c ->
+  w_run_gen vsink vs_wr vs_fl vs_count compress c vs_empty es = (i, Done (s, lg, m)) ->
+  es <> [] -> sorted_strictb (map fst es) = true ->
+  len (vs_bytes s) < 2^64 -> mem_ok lg ->
+  exists bstore body,
+    vs_bytes s = body ++ trailer_bytes m /\
+    content (m_root m) (wc_levels c) bstore = es /\
+    m_version m = FormatV2 /\ m_codec m = wc_codec c /\ m_count m = len es /\ m_levels m = wc_levels c /\
+    m_root m + 8 <= len body /\
+    forall tail, wf_store (load_block decompress (body ++ tail) (wc_codec c)) (m_root m) (wc_levels c) bstore.
+Proof.
+  intros Hcodec es i s lg m HL Hint Hrun Hne Hsorted H64 Hmem.
+  destruct (w_run_tree compress decompress c Hcodec es i s lg m HL Hrun)
+    as (gl & body & Hlo & Hmap & Hents & HTI & Hbytes & Hcnt & Hv & Hc & Hn & Hlv & gl0 & e0 & es0 & Hgl & Hl0 & Hroot & Hnz).
+  rewrite <- Hmap in Hlo.
+  assert (H64b : len body < 2^64) by (rewrite Hbytes, len_app in H64; lia).
+  assert (Hmem' : forall p, In p gl -> len (em_bytes (fst p)) < 2^64).
+  { intros p Hp. apply Hmem. apply in_rev. rewrite <- Hmap. apply in_map. exact Hp. }
+  exists (bstore c gl), body. split; [exact Hbytes|].
+  pose proof (content_eq compress decompress c Hcodec Hint gl body (trailer_bytes m) es Hlo H64b Hmem' HTI gl0 e0 es0 Hgl Hl0 Hnz) as Ec.
+  unfold rootoff in Ec. rewrite Hroot in Ec.
+  split; [exact Ec|]. repeat (split; [assumption|]).
+  split; [rewrite Hlv; unfold u8; apply N.mod_small; lia|].
+  split.
+  { pose proof (laid_out_offsets compress decompress c Hcodec _ _ Hlo e0) as Ho. rewrite <- Hroot. apply Ho.
+    rewrite Hgl, map_app. apply in_or_app. right. left. reflexivity. }
+  intro tail.
+  pose proof (written_store compress decompress c Hcodec Hint gl body tail es Hlo H64b Hmem' Hents HTI gl0 e0 es0 Hgl Hl0 Hnz Hne Hsorted) as W.
+  unfold ldf, rootoff in W. rewrite Hroot in W. exact W.
+Qed.
+
 Theorem written_file_wf compress decompress c :
   (forall b z, compress (wc_codec c) (wc_level c) b = Done z -> decompress (wc_codec c) z = Done b) ->
   forall es i s lg m, wc_levels c < 256 -> 1 <= wc_interval c ->
@@ -301,18 +335,9 @@ Theorem written_file_wf compress decompress c :
     exists body, vs_bytes s = body ++ trailer_bytes m.
 Proof.
   intros Hcodec es i s lg m HL Hint Hrun Hne Hsorted H64 Hmem.
-  destruct (w_run_tree compress decompress c Hcodec es i s lg m HL Hrun)
-    as (gl & body & Hlo & Hmap & Hents & HTI & Hbytes & Hcnt & Hv & Hc & Hn & Hlv & gl0 & e0 & es0 & Hgl & Hl0 & Hroot & Hnz).
-  rewrite <- Hmap in Hlo.
-  assert (H64b : len body < 2^64) by (rewrite Hbytes, len_app in H64; lia).
-  assert (Hmem' : forall p, In p gl -> len (em_bytes (fst p)) < 2^64).
-  { intros p Hp. apply Hmem. apply in_rev. rewrite <- Hmap. apply in_map. exact Hp. }
-  exists (bstore c gl).
-  pose proof (written_store compress decompress c Hcodec Hint gl body (trailer_bytes m) es Hlo H64b Hmem' Hents HTI gl0 e0 es0 Hgl Hl0 Hnz Hne Hsorted) as W.
-  pose proof (content_eq compress decompress c Hcodec Hint gl body (trailer_bytes m) es Hlo H64b Hmem' HTI gl0 e0 es0 Hgl Hl0 Hnz) as Ec.
-  unfold ldf, rootoff in W. unfold rootoff in Ec. rewrite Hroot in W, Ec. rewrite <- Hbytes in W.
-  split; [exact W|]. split; [exact Ec|]. repeat (split; [assumption|]).
-  split; [rewrite Hlv; unfold u8; apply N.mod_small; lia|]. exists body. exact Hbytes.
+  destruct (written_body_wf compress decompress c Hcodec es i s lg m HL Hint Hrun Hne Hsorted H64 Hmem)
+    as (bs & body & Hbytes & Ec & Hv & Hc & Hn & Hlv & _ & W).
+  exists bs. split; [rewrite Hbytes; apply W|]. split; [exact Ec|]. repeat (split; [assumption|]). exists body. exact Hbytes.
 Qed.
 
 (* C01, end to end on the models: a file written from a non-empty strictly ascending sequence opens with
